@@ -1,13 +1,22 @@
 """C06 — every module built with the Builder survives assemble-then-load unchanged."""
 import json
+from collections import Counter
 import random
 import checklib as C
 import buildgen
 from props import common, c06diag
 
-MODULE = "Rspirv.Props.C06"
+MODULE = "Rspirv.Props.C06End"
 THEOREMS = ["Rspirv.Props.C06.methods_ok", "Rspirv.Props.C06.wrappers_ok", "Rspirv.Props.C06.walk_sound",
-            "Rspirv.Props.C06.C06_methods", "Rspirv.Props.C06.C06_terminators", "Rspirv.Props.C06.terminators_covered"]
+            "Rspirv.Props.C06.C06_methods", "Rspirv.Props.C06.C06_terminators", "Rspirv.Props.C06.terminators_covered"] + \
+           ["Rspirv.Props.Reload." + n for n in ("run_fn", "run_sects", "load_canon")] + \
+           ["Rspirv.Props.RoundTrip." + n for n in ("insts_asm", "streamWords_bytes", "C03_accept_header", "loadBytes_of_trace",
+                                                    "assemble_load")] + \
+           ["Rspirv.Props.C06Round." + n for n in ("updBlock_last", "insertAt_mem", "binv_insert", "step_binv", "run_binv",
+                                                   "C06_canon", "step_hdr", "run_hdr", "finish_hdr")] + \
+           ["Rspirv.Props.C06End." + n for n in ("struct_ok", "default_version_normal", "reflect_keys", "classify_row",
+                                                 "method_plain", "hand_entry", "hand_plain", "C06_roundtrip", "C06_scope")] + \
+           ["Rspirv.Props.C06Round.plainRunB_sound", "Rspirv.Props.RoundTrip.grammarStreamB_sound"]
 NEEDS = ("header", "core", "decode", "operand_enum", "asm_arms", "parse_operand", "operands", "builder", "traversals")
 
 
@@ -17,7 +26,9 @@ def run(ctx):
         hok, herr = C.build_harness(ctx, bins=("impl",))
         have = C.need(ctx, *NEEDS)
         failing = C.prove(ctx, MODULE, THEOREMS, extra_targets=["driver"],
-                          files=["Rspirv/Props/C06.lean", "Rspirv/Generic/Method.lean"]) if have else []
+                          files=["Rspirv/Props/C06.lean", "Rspirv/Generic/Method.lean", "Rspirv/Props/Reload.lean", "Rspirv/Props/RoundTrip.lean",
+                                 "Rspirv/Props/C06Round.lean", "Rspirv/Props/C06End.lean", "Rspirv/Model/Builder.lean",
+                                 "Rspirv/Model/BuilderHand.lean", "Rspirv/Instances.lean"]) if have else []
     if not hok or ext is None:
         ctx.issue("harness-build", "the harness no longer builds against the working tree: " + (herr or ctx.data.get("harness_error", ""))[-400:])
         return C.finish(ctx)
@@ -106,6 +117,32 @@ def run(ctx):
         return C.finish(ctx)
     impl, model = C.differential(ctx, reqs, "buildrt", oracle=oracle)
     judged = sum(1 for a in impl if " | same | " in a)
+    # scope of the end-to-end theorem: the driver evaluates the executable forms of the hypotheses of C06_scope
+    # (plain history, complete, grammar stream, 32-bit words) on every history; inside the scope the theorem says "same"
+    hyp = C.run_driver(ctx, ["buildhyp" + r[len("buildrt"):] for r in reqs])
+    in_scope = 0
+    flags = {"plain": 0, "complete": 0, "grammar": 0, "words32": 0}
+    for r, a, hy in zip(reqs, impl, hyp):
+        f = dict(x.split("=") for x in hy.split(" ")[1:]) if hy.startswith("ok ") else {}
+        for k in flags:
+            flags[k] += f.get(k) == "1"
+        if all(f.get(k) == "1" for k in flags):
+            in_scope += 1
+            if " | same | " not in a:
+                ctx.issue(f"oracle:theorem-scope:{r[:120]}", "history inside the scope of C06_scope (plain, complete, grammar stream) but the implementation's assemble-then-load image differs",
+                          witness={"request": r, "implementation": a, "hypotheses": hy}, found_input=True, kind="oracle")
+    ctx.oblige(f"oracle:theorem-scope ({in_scope} of {len(reqs)} histories satisfy the hypotheses of C06_scope; all of them reload unchanged)",
+               in_scope > len(reqs) // 2 and not any(i.key.startswith("oracle:theorem-scope") for i in ctx.issues))
+    ctx.coverage["histories_in_theorem_scope"] = in_scope
+    outside = Counter()
+    for r, hy in zip(reqs, hyp):
+        if "plain=0" in hy:
+            calls = r.split(" ")[1:]
+            pre = C.run_driver(ctx, ["buildhyp " + " ".join(calls[:k]) for k in range(1, len(calls) + 1)])
+            first = next((calls[k] for k, x in enumerate(pre) if "plain=0" in x), "?")
+            outside[first.split("/")[0] + ("@" + first.split("/")[1] if first.split("/")[0].startswith("insert_") else "")] += 1
+    ctx.coverage["first_non_plain_call"] = dict(outside.most_common(12))
+    ctx.coverage["hypothesis_counts"] = flags
     ctx.coverage["methods_called_alone"] = n_single
     ctx.coverage["histories_judged_same"] = judged
     ctx.coverage["histories_with_generator_slips"] = sum(1 for a in impl if any(o.startswith("err") for o in a.split(" | ")[0].split(" ")[1:]))
@@ -117,8 +154,8 @@ def run(ctx):
     ctx.coverage["distinct_methods_exercised"] = len(meths)
     ctx.samples = [{"request": reqs[i][:200], "implementation": impl[i][:160]} for i in (5, n_single + 3, len(reqs) - 1)]
     ctx.assumptions += ["ArgsConform: arguments conform to the grammar (optional operands as a trailing run, parameters only on the last parameterised operand of a call, literal widths consistent with tracked types, OpSwitch selectors untracked); histories complete; no begin_block_no_label (known finding)",
-                        "end-to-end equality is decided by the differential on complete histories (C06_partial): the Lean theorems cover the per-method grammar/sink agreement, C05 the loader, C12/C13 the builder invariants"]
-    return C.finish(ctx, level="proof", checker_cmd="lake build Rspirv.Props.C06 (merge-walk table check over all generated method specs) + #print axioms",
+                        "C06_roundtrip / C06_scope: for complete plain histories (no select_function/select_block/pop_instruction/raw insertion, terminators appended at the end, end_function only with no open block) whose module is a stream of instructions of the grammar, load_bytes(assemble(module)) = Ok(module) is a theorem; 'instruction of the grammar' is defined through the recogniser Spec.inst (C03: what the parser accepts); the other histories are decided by the differential only"]
+    return C.finish(ctx, level="proof", checker_cmd="lake build Rspirv.Props.C06End (method table merge-walk, Builder invariant, canonical reload, end-to-end theorem) + #print axioms",
                     rule="every generated instruction-emitting method called once in a minimal complete history with grammar-conforming arguments, plus seeded complete histories over all methods; distinct non-trivial = distinct histories",
                     trusted=["translator builder.py", "hand models + differential harness (chan/build.rs buildrt)"])
 
